@@ -96,6 +96,15 @@ CORPUS_PROGS = [
     ("def f(a: bool) -> bool:\n    return True\n", [["a", "bool"]], "bool"),
     ("def f(anc_0: bool, b: bool, c: bool) -> bool:\n    return (anc_0 and b) or (b and not c) or (anc_0 and c)\n", [["anc_0", "bool"], ["b", "bool"], ["c", "bool"]], "bool"),
     ("def f(a: bool, anc_1: bool, anc_2: Qint[2]) -> bool:\n    return (a and anc_1 and anc_2 == 1) or (anc_1 and anc_2 > 1) or (a and anc_2 == 3)\n", [["a", "bool"], ["anc_1", "bool"], ["anc_2", "Qint2"]], "bool"),
+    # a variable negated after another one was derived from its old value; the negated variable is returned itself
+    ("def f(a: bool, b: bool, c: bool) -> Tuple[bool, bool]:\n    d = a and b\n    e = d and c\n    d = not d\n    return (d, e != a)\n", [["a", "bool"], ["b", "bool"], ["c", "bool"]], ["bool", "bool"]),
+    ("def f(a: Qint[2], b: Qint[2]) -> Qint[2]:\n    c = a + b\n    e = c & b\n    c = ~c\n    return c\n", [["a", "Qint2"], ["b", "Qint2"]], "Qint2"),
+    ("def f(a: bool, b: bool) -> bool:\n    d = a ^ b\n    e = d or a\n    d = not d\n    return d\n", [["a", "bool"], ["b", "bool"]], "bool"),
+    # names that only differ from an internal name (or from each other) by leading underscores
+    ("def f(ret: bool) -> bool:\n    return not ret\n", [["ret", "bool"]], "bool"),
+    ("def f(ret: Qint[2], b: Qint[2]) -> Qint[2]:\n    return ~ret\n", [["ret", "Qint2"], ["b", "Qint2"]], "Qint2"),
+    ("def f(a: bool, _a: bool) -> bool:\n    _a = not a\n    return _a and a\n", [["a", "bool"], ["_a", "bool"]], "bool"),
+    ("def f(a: bool, b: bool) -> Tuple[bool, bool]:\n    _b = not b\n    b = a and _b\n    return (b, _b)\n", [["a", "bool"], ["b", "bool"]], ["bool", "bool"]),
     ("def f(a: bool, b: bool, c: bool) -> bool:\n    anc_0 = (a and b) or (b and not c)\n    anc_1 = anc_0 ^ c\n    return (anc_0 and anc_1) or (a and not anc_1)\n", [["a", "bool"], ["b", "bool"], ["c", "bool"]], "bool"),
 ]
 
